@@ -7,5 +7,7 @@ pub mod util;
 pub mod walk;
 
 pub mod c01;
+pub mod c03;
 pub mod c04;
 pub mod c13;
+pub mod c15;
